@@ -8,7 +8,7 @@ from harness import core, py2lean, instantiate
 from harness.core import Outcome, f2b, b2f
 
 ID = "C02"
-LEAN_TARGETS = ["BeyondVerif.Props.C02"]
+LEAN_TARGETS = ["BeyondVerif.Props.C02", "BeyondVerif.Witness.C02"]
 THEOREMS = [
     "BeyondVerif.C02.rot1_isRotation",
     "BeyondVerif.C02.rot2_isRotation",
@@ -39,6 +39,16 @@ THEOREMS = [
     "BeyondVerif.C02.transform_roundtrip_same_centre",
     "BeyondVerif.C02.velocity_is_derivative",
     "BeyondVerif.C02.earth_rotation_rate",
+    "BeyondVerif.Memo.run_eq_map",
+    "BeyondVerif.Memo.run_stale",
+    "BeyondVerif.Memo.sound_iff",
+    "BeyondVerif.C02.sessionRun_pure",
+    "BeyondVerif.C02.session_history_independent",
+    "BeyondVerif.C02.session_order_independent",
+    "BeyondVerif.C02.KeyOK_of_text_determines_tt",
+    "BeyondVerif.C02.session_stale",
+    "BeyondVerif.C02W.text_keyed_memo_history_dependent",
+    "BeyondVerif.C02W.text_keyed_memo_order_dependent",
 ]
 LEVEL_TEXT = ("Lean theorems over R about a model of beyond/frames whose formulas (rot1/2/3, precession/nutation arguments, GMST, ERA, rate, CIO matrix, "
               "constant matrices, station matrix) are translated from the Python AST on every run: every rot and every product of rots is a proper rotation "
@@ -46,17 +56,27 @@ LEVEL_TEXT = ("Lean theorems over R about a model of beyond/frames whose formula
               "inverse; norms preserved; d/dt(R(t) r(t)) equals the velocity block for rate=(0,0,-theta') (HasDerivAt, all differentiable theta, r); "
               "A->B->C = A->C and A->B->A = 1 for the convert_to loop along every link history grown leaf by leaf (induction; any carrier with an "
               "associative product), instantiated for the model's orientConvert with paths from the C20 routing model. "
-              "The hand-written glue (which rot in which order, EOP units, series folds, centres, Frame.transform) is tied by differential correspondence "
-              "under three EOP configurations.")
-LEVEL_NOTE = ("R -> double gap and time-scale arithmetic (Date -> TT/UT1 centuries) are outside the theorems; agreement with independent GMST/ERA/precession "
-              "and IAU1980 vs IAU2010 < 0.1 arcsec are oracle-only; Lean kernel + propext/Classical.choice/Quot.sound; py2lean and harness trusted")
-TECHNIQUE = "Lean 4 proof (ring identities, HasDerivAt, induction over link histories, decide/norm_num on regenerated tables) + differential correspondence"
+              "History independence: the model of a process carries the memoizer of beyond/utils/memoize.py as a state machine (Memo.run) and the one date-dependent memo "
+              "the frames have (iau1980._nutation, keyed by the text of the date); Memo.sound_iff: a memoized function answers every history like the bare function iff its key "
+              "determines its value; session_history_independent: for every history of earlier conversions the result of a conversion is callPure = a function of (instant + EOP "
+              "record of the date, frame graph, the two frames) alone whenever the text of a date determines its TT instant; session_stale + Witness: otherwise the second call gets "
+              "the first call's nutation (the model follows the code there). "
+              "The hand-written glue (which rot in which order, EOP units, series folds, centres, Frame.transform, the memo) is tied by differential correspondence on HISTORIES of calls "
+              "under five EOP configurations sharing their instants.")
+LEVEL_NOTE = ("R -> double gap and time-scale arithmetic (Date -> TT/UT1 centuries; the model is given text + record offsets, reconciled to 2 ulp of the JD with Date.change_scale) are outside the theorems; "
+              "agreement with independent GMST/ERA/precession/nutation/polar motion and IAU1980 vs IAU2010 < 0.1 arcsec are oracle-only; the memo model covers Orientation.convert_to "
+              "(Frame.transform histories are compared call by call with the pure model, justified by session_history_independent on histories satisfying its hypothesis); "
+              "Lean kernel + propext/Classical.choice/Quot.sound; py2lean and harness trusted")
+TECHNIQUE = "Lean 4 proof (ring identities, HasDerivAt, induction over link histories and over call histories, decide/norm_num on regenerated tables) + differential correspondence on call sequences"
 TRUSTED = [
     "harness/py2lean.py: translates rot1/rot2/rot3, _precesion, _nutation arguments, _sideral (1980/2010), rate, _planets, X/Y/s polynomials, precesion_nutation, "
     "G50/GCRF constant matrices, TopocentricOrientation._m, _geodetic_to_cartesian into Generated/FrameFormulas{F,R}.lean on every run",
     "harness/props/C02.py extract: list of A_to_B methods of class Orientation (AST) -> Generated/OrientProviders.lean; orientHist from C20's extractor",
     "harness/props/C02.py Scenario: the specification of the frame graph and the independent numpy formulas (QSW/TNW axes, station axes, geodetic coordinates) the model inputs are derived from",
-    "lean/templates/Frames.tpl, Mat3.tpl, Model/Chain.lean (hand-written glue: provider products, EOP units, series folds, convert_to loop, centres, transform), tied by the correspondence run",
+    "harness/props/C02.py indep_record / pure_times: the EOP record of each of the five configurations from an own column parse of the IERS files and an own leap second table; "
+    "TT / UT1 of a date from its text and that record with python datetime arithmetic (microseconds)",
+    "lean/templates/Frames.tpl, Mat3.tpl, Model/Chain.lean, Model/Memo.lean (hand-written glue: provider products, EOP units, series folds, convert_to loop, centres, transform, memoizer, "
+    "which routes consult the _nutation memo), tied by the correspondence run",
     "np.linalg.inv is modelled by the exact inverse (adjugate/determinant, block form); numpy / libm double arithmetic vs R: tolerance 1e-10 relative on matrices",
     "Node routing model of C20 (Model/Node.lean) for the paths; C20.path_valid_chain",
 ]
@@ -67,31 +87,45 @@ ASSUMPTIONS = [
     "provider_isRotation + const_matrices_invertible + providers_match give this for the built-in providers, the assembly into EdgesOK for `edge` is not done in Lean",
     "cioMat_isRotation needs X^2+Y^2 < 1 (in 1973-2017: < 1e-5)",
     "velocity of body-centred frames (Moon, Sun) depends on the body's own velocity, a +-1 day difference quotient (C18): excluded from the velocity oracle",
+    "session_history_independent assumes KeyOK: dates with the same text have the same TT instant (KeyOK_of_text_determines_tt: dates given in TAI/TT/GPS/TDB, or in UTC under EOP sources that agree "
+    "on TAI-UTC); a Date is created under the configuration it is used under (a Date keeps the record it was created with, change_scale looks the new scale up again: C03)",
+    "a frame name means its latest registration (orbit2frame / create_station with a name already taken override it, with a warning): histories re-register names and expect the new specification",
 ]
 NOT_COVERED = [
-    "agreement of the Earth-fixed <-> inertial rotation with independently computed GMST82 / ERA / IAU-1976 precession: oracle only (independent numpy formulas)",
+    "agreement of the Earth-fixed <-> inertial rotation with independently computed GMST82 / equation of the equinoxes / ERA / IAU-1976 precession / 1980 nutation / polar motion: oracle only "
+    "(independent numpy formulas evaluated with the independently known EOP record of the current configuration)",
     "IAU-1980 chain vs IAU-2010 chain < 0.1 arcsec: oracle only (106- and ~3000-term series; no theorem)",
     "EOP file readers (Finals, Finals2000A, TaiUtc) on the real IERS files: oracle only (independent column parse)",
     "d(GMST)/dt vs the constant in rate(): not proved (DESIGN earth_rate_consistent); the oracle's finite-difference check covers it to 1e-3 m/s",
+    "iau1980.nutation / equinox / sideral with eop_correction=True (not used by the frame providers): oracle only; history dependent (known finding C02-nutation-memo-eop)",
 ]
 OPEN = [
     "transform_roundtrip for frames with different centres: only the algebraic core (affine_roundtrip) and the same-centre case are proved; "
     "the antisymmetry of Center.convert_to across two target orientations is checked by correspondence and oracle only",
     "EdgesOK for the model's concrete `edge` function is a hypothesis of orientConvert_compose/_inverse (see assumptions)",
     "velocity_is_derivative is proved for R(t) = rot3(-theta(t)) (the two Earth-rotation edges); the slow precession/nutation/polar-motion rates are omitted by the code by design (5e-5 m/s) and by the theorem",
+    "history independence without KeyOK is false for the code as it is (session_stale; UTC texts under EOP sources that disagree on TAI-UTC: 2e-10 rad through the frames, 2.4e-7 rad through "
+    "iau1980.nutation(date)): session_history_independent is the `_partial` statement, the unconditional one needs proposed_fixes/C02-nutation-memo-eop.diff",
+    "the memo machine (sessionRun) models Orientation.convert_to; which memo keys a whole Frame.transform touches (centre links, orbit-attached providers converting their reference) is not modelled — "
+    "irrelevant under KeyOK by the theorem, so Frame.transform histories are generated inside KeyOK",
 ]
-RULE = ("correspondence: nutation/CIO series folds on 25/8 dates (batched, tables parsed independently from beyond/frames/data), to_local / station matrix / geodetic closed forms; "
-        "Orientation.convert_to and Frame.transform on random ordered pairs of the frames of a SCENARIO: a specification (where each centre is, how each orientation is defined) "
-        "realised through the public API (create_station, solarsystem.get_frame, orbit2frame) while the model inputs (links, provider matrices, offsets) are derived from the "
-        "specification with independent numpy formulas, never from the objects the library built: 10 built-ins, station, equatorial station, Moon-centred, orbit-attached "
-        "inertial/QSW/TNW, chaser given relative to an orbit-attached frame (nested; inertial and TNW with that frame as parent), lunar orbiter given in the Moon frame (default "
-        "parent and QSW below the Moon frame), point given in a station frame, StateVector held in keplerian form; an exception of the implementation where the model converts is a "
-        "disagreement; random dates 1973-2017 (10 % beyond the tables), real IERS files / zero EOP / missing EOP; "
+RULE = ("correspondence: the real code is driven through HISTORIES of conversions in one process, nothing of the library reset in between: (A1) fresh instants under each of five EOP configurations "
+        "(real IERS files through SimpleEopDatabase / zero EOP / EOP missing with policy pass / a second registered database selected by eop.dbname / EopDb.get patched), (A2) the SAME instants under "
+        "several configurations in varying orders, each (configuration, instant) visited repeatedly, with fresh and re-used Date objects and repeated requests — UTC texts under the four configurations that agree "
+        "on TAI-UTC, TAI texts under all five, (A3) UTC texts under configurations that disagree on TAI-UTC as ONE request to the model carrying the _nutation memo (c02seq), (A4) the same names registered "
+        "again with another specification and the same instants again; the model is given the date as a pure function of (text of the date, EOP record of the configuration known independently of the library's "
+        "readers) and its own series at that TT century; Orientation.convert_to and Frame.transform on random ordered pairs of the frames of a SCENARIO: a specification (where each centre is, how each orientation "
+        "is defined) realised through the public API (create_station, solarsystem.get_frame, orbit2frame) while the model inputs (links, provider matrices, offsets) are derived from the specification with "
+        "independent numpy formulas: 10 built-ins, station, equatorial station, Moon-centred, orbit-attached inertial/QSW/TNW, nested chaser, lunar orbiter, point given in a station frame, StateVector held in "
+        "keplerian form; memoized table readers asked in varying order; nutation/CIO series at every instant as the library answers them inside the history; to_local / station matrix / geodetic closed forms; "
+        "an exception of the implementation where the model converts is a disagreement; dates 1973-2017 (15 % around the branch day MJD 50506, 10 % beyond the tables); "
         "rtol 1e-10 on matrices, 1e-9 relative on states; non-trivial = source != target. "
         "oracle: A->B->C vs A->C and A->B->A (1e-6 m, 1e-9 m/s + double resolution at the largest distance), orthonormality/det/block form, |r| preserved, "
-        "Richardson central difference (20/40 s) of the converted position vs converted velocity, GMST82/ERA/precession vs independent formulas, 1980 vs 2010 < 0.1 arcsec, "
-        "EOP reader vs independent parse, attached-frame independence of the StateVector form, and the meaning of 'attached to X' with hand-written expected values "
-        "(X is the origin both ways, X + d is seen at d / R d) for references given in Earth-centred, nested orbit-attached, station and Moon-centred frames; "
+        "Richardson central difference (20/40 s) of the converted position vs converted velocity; with the EOP record of the CURRENT configuration known independently (UT1 = text + ut1_utc, TT = text + tai_utc + 32.184 s): "
+        "date.eop = that record, PEF->TOD angle vs GMST82 + independent equation of the equinoxes (own 106-term series, kinematic terms from 1997-02-27) to 1 mas, TIRF->CIRF vs ERA to 1 mas, rate block vs lod, "
+        "polar motion 1980/2010 vs x, y, nutation (with and without dPsi/dEps), TEME equinox, precession, CIO X - dX / Y - dY equal across configurations — on fresh instants (matrix level) and on the same "
+        "instants under all five configurations in varying orders through StateVector.copy (family suffix :after-other-configuration); 1980 vs 2010 < 0.1 arcsec, EOP reader vs independent parse, attached-frame "
+        "independence of the StateVector form, the meaning of 'attached to X' with hand-written expected values before and after re-registration of the names; "
         "a conversion between connected frames that raises is a failing input")
 
 BUILTIN = ["EME2000", "MOD", "TOD", "TEME", "PEF", "ITRF", "TIRF", "CIRF", "GCRF", "G50"]
@@ -160,40 +194,161 @@ def extract(ctx):
 
 # ---------------------------------------------------------------- EOP configurations
 
+LEAP = [(41317, 10.0), (41499, 11.0), (41683, 12.0), (42048, 13.0), (42413, 14.0), (42778, 15.0), (43144, 16.0), (43509, 17.0), (43874, 18.0), (44239, 19.0),
+        (44786, 20.0), (45151, 21.0), (45516, 22.0), (46247, 23.0), (47161, 24.0), (47892, 25.0), (48257, 26.0), (48804, 27.0), (49169, 28.0), (49534, 29.0),
+        (50083, 30.0), (50630, 31.0), (51179, 32.0), (53736, 33.0), (54832, 34.0), (56109, 35.0), (57204, 36.0), (57754, 37.0)]
+EOP_FIELDS = ("x", "y", "dx", "dy", "deps", "dpsi", "lod", "ut1_utc", "tai_utc")
+VALLADO = dict(x=-0.140682, y=0.333309, dpsi=-52.195, deps=-3.875, dx=-0.205, dy=-0.136, lod=1.5563, ut1_utc=-0.4399619)   # Vallado ex. 3-15
+MODES = ("real", "zero", "missing", "altdb", "patched")
 _real_db = {}
+_rows = {}
+_orig_get = []
+
+
+def indep_leap(mjd):
+    """TAI-UTC (s) from the leap second table written here"""
+    return [v for m, v in LEAP if m <= mjd][-1]
+
+
+def indep_rows():
+    """finals.all / finals2000A.all parsed by the IERS readme columns (1-based), independently of beyond/dates/eop.py"""
+    if not _rows:
+        folder = os.path.join(core.REPO, "tests", "data", "pole")
+        for fn, d1, d2 in (("finals.all", "dpsi", "deps"), ("finals2000A.all", "dx", "dy")):
+            for line in open(os.path.join(folder, fn), encoding="ascii"):
+                mjd = int(float(line[7:15]))
+
+                def col(a, b):
+                    t = line[a - 1:b].strip()
+                    return float(t) if t else None
+                r = _rows.setdefault(mjd, {})
+                r.update({"x": col(19, 27), "y": col(38, 46), "ut1_utc": col(59, 68), "lod": col(80, 86), d1: col(98, 106), d2: col(117, 125)})
+        # documented behaviour of the readers for the last months of the files: a blank LOD / dX,dY / dPsi,dEps keeps the last value given
+        last = {}
+        for mjd in sorted(_rows):
+            r = _rows[mjd]
+            for k in ("lod", "dx", "dy", "dpsi", "deps"):
+                if r.get(k) is None and k in last:
+                    r[k] = last[k]
+                elif r.get(k) is not None:
+                    last[k] = r[k]
+    return _rows
+
+
+def alt_transform(r, tai):
+    """the record the second database ('c02alt') serves for a day whose IERS record is r: every field differs from the 'real' one"""
+    return dict(x=r["y"], y=r["x"], dx=-r["dx"], dy=-r["dy"] + 0.1, dpsi=-r["dpsi"], deps=r["deps"] + 2.0, lod=r["lod"] + 0.7,
+                ut1_utc=round(-0.5 * r["ut1_utc"] - 0.1, 7), tai_utc=tai)
+
+
+def indep_record(mode, mjd):
+    """The EOP record configuration `mode` attaches to a date whose UTC day is int(mjd), from sources independent of the
+    library's readers (own column parse, own leap second table).  None = not known independently (outside 1973-2017)."""
+    zero = dict(x=0.0, y=0.0, dx=0.0, dy=0.0, deps=0.0, dpsi=0.0, lod=0.0, ut1_utc=0.0)
+    if mode == "missing":
+        return dict(zero, tai_utc=0.0)
+    if not (MJD_MIN <= int(mjd) < MJD_MAX):
+        return None
+    tai = indep_leap(mjd)
+    if mode == "zero":
+        return dict(zero, tai_utc=tai)
+    if mode == "patched":
+        return dict(VALLADO, tai_utc=tai)
+    r = indep_rows().get(int(mjd))
+    if r is None or len(r) < 8 or any(v is None for v in r.values()):
+        return None
+    if mode == "real":
+        return dict(r, tai_utc=tai)
+    if mode == "altdb":
+        return alt_transform(r, tai)
+    raise ValueError(mode)
 
 
 def set_eop(mode):
-    """real: tests/data/pole through SimpleEopDatabase; zero: all parameters 0 but TAI-UTC from tai-utc.dat;
-    missing: the database cannot be instantiated, policy 'pass' (what a fresh installation does)"""
+    """Five ways a process can be configured (no cache of the library is touched here: a conversion must follow the record of the
+    date at hand whatever was computed before):
+    real: tests/data/pole through the library's own SimpleEopDatabase (dbname 'default');
+    zero: a database whose records are all 0 but TAI-UTC;
+    missing: the database cannot be instantiated, policy 'pass' (what a fresh installation does): all 0, TAI-UTC = 0;
+    altdb: config eop.dbname names a second registered database ('c02alt') serving other values for the same days;
+    patched: EopDb.get itself replaced (what the library's test-suite does), one fixed record (Vallado ex. 3-15) for every day"""
     from beyond.config import config
-    from beyond.dates.eop import EopDb, SimpleEopDatabase, Eop, TaiUtc
-    from beyond.frames import iau1980
-    # _nutation is memoized on str(date): the TT instant of a UTC string depends on TAI-UTC, i.e. on the EOP source
-    iau1980._nutation._cache.clear()
+    from beyond.dates.eop import EopDb, SimpleEopDatabase, Eop
+    if not _orig_get:
+        _orig_get.append(EopDb.__dict__["get"])
+    setattr(EopDb, "get", _orig_get[0])
     folder = os.path.join(core.REPO, "tests", "data", "pole")
     config.set("eop", "missing_policy", "pass")
     config.set("eop", "folder", folder)
     config.set("eop", "type", "all")
+    config.set("eop", "dbname", "default")
     EopDb._load_entry_points()
+    if "c02alt" not in EopDb._dbs:
+        class AltDb:
+            def __getitem__(self, mjd):
+                r = indep_record("altdb", mjd)
+                if r is None:
+                    raise KeyError(mjd)
+                return Eop(**r)
+        EopDb.register(AltDb, "c02alt")
     if mode == "real":
         if folder not in _real_db:
             _real_db[folder] = SimpleEopDatabase()
         EopDb._dbs["default"] = _real_db[folder]
     elif mode == "zero":
-        t = TaiUtc(os.path.join(folder, "tai-utc.dat"))
-
         class ZeroDb:
             def __getitem__(self, mjd):
-                return Eop(x=0, y=0, dx=0, dy=0, deps=0, dpsi=0, lod=0, ut1_utc=0, tai_utc=t[mjd])
+                return Eop(x=0, y=0, dx=0, dy=0, deps=0, dpsi=0, lod=0, ut1_utc=0, tai_utc=indep_leap(mjd))
         EopDb._dbs["default"] = ZeroDb()
     elif mode == "missing":
         class Broken:
             def __init__(self):
                 raise FileNotFoundError("no EOP files")
         EopDb._dbs["default"] = Broken
+    elif mode == "altdb":
+        if folder not in _real_db:
+            _real_db[folder] = SimpleEopDatabase()
+        EopDb._dbs["default"] = _real_db[folder]
+        config.set("eop", "dbname", "c02alt")
+    elif mode == "patched":
+        def get(cls, mjd, dbname=None):
+            return Eop(tai_utc=indep_leap(mjd), **VALLADO)
+        setattr(EopDb, "get", classmethod(get))
     else:
         raise ValueError(mode)
+
+
+T0 = None
+
+
+def pure_times(scale, d, s, rec):
+    """What the providers read from a date, computed from its TEXT (day d, seconds s in `scale`) and an EOP record only, with
+    python datetime arithmetic (microsecond resolution, like the library's Date): TT century, UT1 century, UT1 JD, day number,
+    and (UT1 day JD at 0h, UT1 seconds of day) for the independent sidereal formulas."""
+    from datetime import datetime, timedelta
+    t0 = datetime(1858, 11, 17)
+    dt = t0 + timedelta(days=d, seconds=s)
+    tai_utc, ut1_utc = rec["tai_utc"], rec["ut1_utc"]
+    if scale == "UTC":
+        to_tt, to_ut1 = 0 + tai_utc + 32.184, 0 + ut1_utc
+    elif scale == "TAI":
+        to_tt, to_ut1 = 0 + 32.184, 0 - tai_utc + ut1_utc
+    elif scale == "TT":
+        to_tt, to_ut1 = 0.0, 0 - 32.184 - tai_utc + ut1_utc
+    else:
+        raise ValueError(scale)
+
+    def jd(x):
+        delta = x - t0
+        return delta.days + (delta.seconds + delta.microseconds * 1e-6) / 86400.0 + 2400000.5
+    jd_tt, jd_ut1 = jd(dt + timedelta(seconds=to_tt)), jd(dt + timedelta(seconds=to_ut1))
+    ut1 = (dt + timedelta(seconds=to_ut1)) - t0
+    return {"ttt": (jd_tt - 2451545.0) / 36525.0, "tut1": (jd_ut1 - 2451545.0) / 36525.0, "jdut1": jd_ut1, "day": float(d),
+            "ut1_jd0": ut1.days + 2400000.5, "ut1_sec": ut1.seconds + ut1.microseconds * 1e-6}
+
+
+def rec_of(eop):
+    return {k: float(getattr(eop, k)) for k in EOP_FIELDS}
 
 
 # ---------------------------------------------------------------- frames used by the sweeps
@@ -212,13 +367,25 @@ def stations():
     return _stations
 
 
-def rand_date(rng, lo=MJD_MIN, hi=MJD_MAX):
-    from beyond.dates import Date
+# day numbers at which a branch of the anchored code switches (iau1980.equinox: kinematic terms from MJD 50506 = 1997-02-27 on)
+BRANCH_DAYS = (50506,)
+
+
+def rand_ds(rng, lo=MJD_MIN, hi=MJD_MAX):
+    """(day, seconds) of a UTC text: uniform over the tables, 15 % within +-5 years of a branch day (both sides, and the two days at it)"""
     d = rng.randrange(lo, hi)
+    if lo == MJD_MIN and hi == MJD_MAX and rng.random() < 0.15:
+        b = rng.choice(BRANCH_DAYS)
+        d = rng.choice([b - 1, b, rng.randrange(b - 1830, b), rng.randrange(b - 1830, b), rng.randrange(b, b + 1830)])
     s = round(rng.uniform(0, 86399.0), rng.choice([0, 3, 6]))
     if rng.random() < 0.1:
         s = rng.choice([0.0, 1.0, 43200.0, 86398.0])
-    return Date(d, s)
+    return d, s
+
+
+def rand_date(rng, lo=MJD_MIN, hi=MJD_MAX):
+    from beyond.dates import Date
+    return Date(*rand_ds(rng, lo, hi))
 
 
 def rand_kepl(rng):
@@ -314,7 +481,9 @@ class Scenario:
         from beyond.orbits import StateVector
         from beyond.frames.frames import orbit2frame, get_frame, EME2000
         from beyond.frames.stations import create_station
-        self.idx = idx
+        import logging
+        logging.getLogger("beyond.frames.frames").setLevel(logging.ERROR)   # re-registration under the same names is intended here
+        self.idx, self.tag = idx, tag
         ITRF, EME = idx["ITRF"], idx["EME2000"]
         self.ITRF, self.EME = ITRF, EME
         n = lambda x: f"C02s{tag}{x}"
@@ -414,6 +583,176 @@ def indep_precession(t):
     ])
 
 
+def indep_nut80(ttt, rows):
+    """IAU-1980 nutation from the fundamental arguments as published (arcseconds; Seidelmann 1992, IERS TN 21) and the rows of tab5.1
+    parsed here: (mean obliquity rad, dpsi rad, deps rad, Omega of the kinematic terms rad)"""
+    r, T = 1296000.0, ttt
+    l = 485866.733 + (1325 * r + 715922.633) * T + 31.310 * T * T + 0.064 * T ** 3
+    lp = 1287099.804 + (99 * r + 1292581.224) * T - 0.577 * T * T - 0.012 * T ** 3
+    F = 335778.877 + (1342 * r + 295263.137) * T - 13.257 * T * T + 0.011 * T ** 3
+    D = 1072261.307 + (1236 * r + 1105601.328) * T - 6.891 * T * T + 0.019 * T ** 3
+    Om = 450160.280 - (5 * r + 482890.539) * T + 7.455 * T * T + 0.008 * T ** 3
+    fa = [math.fmod(x, r) * ARCSEC for x in (l, lp, F, D, Om)]
+    dpsi = deps = 0.0
+    for row in rows:
+        arg = sum(a * f for a, f in zip(row[:5], fa))
+        dpsi += (row[5] + row[6] * T) * math.sin(arg)
+        deps += (row[7] + row[8] * T) * math.cos(arg)
+    eps0 = (84381.448 - 46.8150 * T - 0.00059 * T * T + 0.001813 * T ** 3) * ARCSEC
+    om03 = math.fmod(450160.398036 - 6962890.2665 * T + 7.4722 * T * T + 0.007702 * T ** 3, r) * ARCSEC   # IERS 1996/2003 node
+    return eps0, dpsi * 1e-4 * ARCSEC, deps * 1e-4 * ARCSEC, om03
+
+
+def indep_eqeq(ttt, rows, utc_day, kinematic=True):
+    """equation of the equinoxes (rad): dpsi cos(eps) + [from 1997-02-27 0h UTC = MJD 50506 on] 0.00264" sin Om + 0.000063" sin 2 Om (IERS TN 21)"""
+    eps0, dpsi, _, om = indep_nut80(ttt, rows)
+    eq = dpsi * math.cos(eps0)
+    if kinematic and utc_day >= 50506:
+        eq += (0.00264 * math.sin(om) + 0.000063 * math.sin(2 * om)) * ARCSEC
+    return eq
+
+
+def R1(t):
+    import numpy as np
+    c, s = math.cos(t), math.sin(t)
+    return np.array([[1, 0, 0], [0, c, s], [0, -s, c]])
+
+
+def R2(t):
+    import numpy as np
+    c, s = math.cos(t), math.sin(t)
+    return np.array([[c, 0, -s], [0, 1, 0], [s, 0, c]])
+
+
+def R3(t):
+    import numpy as np
+    c, s = math.cos(t), math.sin(t)
+    return np.array([[c, s, 0], [-s, c, 0], [0, 0, 1]])
+
+
+def wrap(x):
+    return (x + math.pi) % (2 * math.pi) - math.pi
+
+
+_t51 = []
+_seen_instants = {}
+
+
+def earth_rotation_checks(out, mode, scale, d, s, date, rec, via):
+    """The clause "the Earth-fixed <-> inertial rotation agrees with independently computed sidereal time, Earth-rotation angle and
+    precession", for the date AT HAND: every expected value is computed here from the text of the date (d, s, scale) and the EOP record
+    `rec` of the CURRENT configuration, known independently of the library (UT1 = UTC + ut1_utc, TT = UTC + tai_utc + 32.184 s) — never
+    from date.eop, date.change_scale or a helper of beyond.frames.
+    via = 'matrix': Orientation.convert_to;  via = 'state': StateVector.copy(frame=...) of three basis states (what a user calls).
+    The configurations under which this very text was converted earlier in the process are kept (`_seen_instants`) and named in the input."""
+    import numpy as np
+    from beyond.frames.frames import get_frame
+    from beyond.orbits import StateVector
+    if not _t51:
+        _t51.extend(parse_tab51())
+    t = pure_times(scale, d, s, rec)
+    after = [m for m in _seen_instants.get((scale, d, s), []) if m != mode]
+    _seen_instants.setdefault((scale, d, s), []).append(mode)
+    hist = "" if not after else ":after-other-configuration"
+    inp = {"eop": mode, "date": f"Date({d}, {s!r}, scale='{scale}')", "record": rec, "via": via}
+    if after:
+        inp["converted_before_under"] = list(after)
+    tag = dict(eop=mode, via=via, scale=scale, history="revisit" if after else "first")
+    # the record attached to the date is the one of the current configuration
+    out.count(key=("eoprec", mode, scale, d, s), kind="eop-of-configuration", **tag)
+    for k in EOP_FIELDS:
+        if float(getattr(date.eop, k)) != rec[k]:
+            out.fail(f"eop-of-configuration:{mode}:{k}{hist}", f"date.eop.{k} is not the value of the configured EOP source for that day", inp, observed=float(getattr(date.eop, k)), expected=rec[k])
+
+    def blocks(a, b):
+        if via == "matrix":
+            m = get_frame(a).orientation.convert_to(date, get_frame(b).orientation)
+            return m[:3, :3], m[3:, :3]
+        cols = [np.array(StateVector([7e6 * (i == 0), 7e6 * (i == 1), 7e6 * (i == 2), 0, 0, 0], date, "cartesian", a).copy(frame=b)) / 7e6 for i in range(3)]
+        return np.array([c[:3] for c in cols]).T, np.array([c[3:] for c in cols]).T
+
+    w = 7.292115146706979e-5 * (1 - rec["lod"] / 1000.0 / 86400.0)
+    wx = np.array([[0, -w, 0], [w, 0, 0], [0, 0, 0]])
+    eq = indep_eqeq(t["ttt"], _t51, int(t["day"]))
+    for a, b, name, expected in (("PEF", "TOD", "sidereal-independent", indep_gmst82(t["ut1_jd0"], t["ut1_sec"]) + eq),
+                                 ("TIRF", "CIRF", "era-independent", indep_era(t["ut1_jd0"], t["ut1_sec"]))):
+        r, bl = blocks(a, b)
+        ang = math.atan2(r[1, 0], r[0, 0])
+        out.count(key=(name, mode, scale, d, s, via), kind=name, **tag)
+        if not abs(wrap(ang - expected)) <= 1e-3 * ARCSEC + (0 if via == "matrix" else 1e-12):   # 1 mas; jd is one double: 1.7e-9 rad of rounding
+            out.fail(name + hist, f"{a}->{b} rotation angle differs from the sidereal time / Earth rotation angle computed independently from UT1 = {scale} text + offsets of the record of the date",
+                     inp, observed=float(ang % (2 * math.pi)), expected=float(expected % (2 * math.pi)))
+        out.count(key=("rate", a, mode, scale, d, s, via), kind="rate-block", **tag)
+        if np.abs(bl - wx @ r).max() > 1e-15 + (0 if via == "matrix" else 1e-13):
+            out.fail(f"rate-block:{a}>{b}{hist}", f"{a}->{b} velocity coupling is not +w x R r with w = w_earth (1 - lod/86400 s) of the record of the date", inp, observed=bl.tolist(), expected=(wx @ r).tolist())
+    xp, yp = rec["x"] * ARCSEC, rec["y"] * ARCSEC
+    sp = -0.000047 * t["ttt"] * ARCSEC
+    eps0, dpsi, deps, _ = indep_nut80(t["ttt"], _t51)
+    eq4 = indep_eqeq(t["ttt"], _t51[:4], int(t["day"]), kinematic=False)
+    for a, b, name, exp, tol in (("ITRF", "PEF", "polar-motion-independent:1980", R1(yp) @ R2(xp), 1e-12),
+                                 ("ITRF", "TIRF", "polar-motion-independent:2010", R3(-sp) @ R2(xp) @ R1(yp), 1e-12),
+                                 ("TOD", "MOD", "nutation-independent", R1(-eps0) @ R3(dpsi) @ R1(eps0 + deps), 1e-9),
+                                 ("TEME", "TOD", "teme-equinox-independent", R3(-eq4), 1e-9),
+                                 ("MOD", "EME2000", "precession-independent", indep_precession(t["ttt"]), 1e-11)):
+        r, _ = blocks(a, b)
+        out.count(key=(name, mode, scale, d, s, via), kind=name.split(":")[0], **tag)
+        if not np.abs(r - exp).max() <= tol + (0 if via == "matrix" else 1e-12):
+            out.fail(name + hist, f"{a}->{b} differs from the matrix written here from the record / the text of the date", inp, observed=r.tolist(), expected=exp.tolist())
+    # the public iau1980.nutation(date) with its default eop_correction=True (what iau1980.equinox(date), sideral(date, model="apparent")
+    # and beyond/io/horizon.py read): the series plus the corrections dPsi, dEps of the record of the date
+    from beyond.frames import iau1980
+    exp = R1(-eps0) @ R3(dpsi + rec["dpsi"] * 1e-3 * ARCSEC) @ R1(eps0 + deps + rec["deps"] * 1e-3 * ARCSEC)
+    got = iau1980.nutation(date)
+    out.count(key=("nutcorr", mode, scale, d, s, via), kind="nutation-eop-correction", **tag)
+    if not np.abs(got - exp).max() <= 1e-9:
+        out.fail("nutation-eop-correction" + hist, "iau1980.nutation(date) (EOP corrections included) is not the 1980 series plus dPsi, dEps of the record of the date",
+                 inp, observed=got.tolist(), expected=exp.tolist())
+    # CIRF->GCRF: the third column of the CIO matrix is (X, Y, .) with X = X_series(TT) + dX of the record: X - dX must be the same number
+    # under every configuration that gives the text the same TT instant (it is the series alone)
+    r, _ = blocks("CIRF", "GCRF")
+    xs, ys = r[0, 2] - rec["dx"] * 1e-3 * ARCSEC, r[1, 2] - rec["dy"] * 1e-3 * ARCSEC
+    first = _xy_series.setdefault((scale, d, s, rec["tai_utc"]), (xs, ys, mode))
+    out.count(key=("ciooff", mode, scale, d, s, via), kind="cio-offsets-of-record", **tag)
+    if not (abs(xs - first[0]) <= 2e-12 and abs(ys - first[1]) <= 2e-12):
+        out.fail("cio-offsets-of-record" + hist, f"CIRF->GCRF: X - dX, Y - dY of the record differ from what they were at this instant under configuration '{first[2]}' (the series depends on TT only)",
+                 inp, observed=[float(xs), float(ys)], expected=[float(first[0]), float(first[1])])
+    return t
+
+
+_xy_series = {}
+
+
+def history_oracle(out, rng, big):
+    """THE SAME instants under the five configurations inside one process, in varying orders, each (configuration, instant) visited more
+    than once, through StateVector.copy(frame=...): whatever was converted before, the rotation must be the one of the date at hand.
+    Two kinds of texts: UTC (the calendar text is the same, TAI-UTC is the same in 4 of the 5 configurations) and TAI (the text is the
+    same in all five; UT1 differs by up to 37 s between 'missing' and the others)."""
+    from beyond.dates import Date
+    for scale in ("UTC", "TAI"):
+        n_inst = 5 if big else 2
+        insts = [(rng.randrange(MJD_MIN, MJD_MAX), round(rng.uniform(200, 86200), rng.choice([0, 3, 6]))) for _ in range(n_inst)]
+        if rng.random() < 0.5:
+            insts[0] = (rng.randrange(50506 - 1800, 50506), insts[0][1])
+        held = {}
+        for rnd in range(3 if big else 2):
+            order = list(MODES)
+            rng.shuffle(order)
+            for mode in order:
+                set_eop(mode)
+                sub = rng.sample(range(n_inst), rng.randint(max(1, n_inst - 1), n_inst))
+                sub.insert(rng.randrange(len(sub) + 1), rng.choice(sub))      # one instant twice under the same configuration
+                for i in sub:
+                    d, s_utc = insts[i]
+                    s = s_utc if scale == "UTC" else round(s_utc + indep_leap(d), 6)
+                    if (mode, i) in held and rng.random() < 0.3:
+                        date = held[(mode, i)]                                 # the Date object created at the earlier visit
+                    else:
+                        date = held[(mode, i)] = Date(d, s, scale=scale)
+                    rec = indep_record(mode, d + s_utc / 86400.0)
+                    earth_rotation_checks(out, mode, scale, d, s, date, rec, "state")
+    set_eop("real")
+
+
 def rot_angle(m):
     import numpy as np
     c = (np.trace(m) - 1) / 2
@@ -452,11 +791,12 @@ def oracle(ctx, widened):
     sta = stations()
     bod = body_frames()
     scs = scenarios(rng, {n: i for i, n in enumerate(orient_names())})
-    for mode in ("real", "zero", "missing"):
+    for mode in MODES:
         set_eop(mode)
-        N = (400 if big else 40) if mode == "real" else (150 if big else 14)
+        N = (400 if big else 40) if mode == "real" else (150 if big else 14) if mode in ("zero", "missing") else (60 if big else 6)
         for _ in range(N):
-            date = rand_date(rng)
+            d_, s_ = rand_ds(rng)
+            date = Date(d_, s_)
             att, ref = attached_frames(rng, date)
             names = BUILTIN + list(sta) + list(att) + list(bod)
             weights = [3] * len(BUILTIN) + [2] * len(sta) + [2] * len(att) + [1] * len(bod)
@@ -543,42 +883,11 @@ def oracle(ctx, widened):
                     out.fail(fam, "converted velocity is not the time derivative of the converted position",
                              {"eop": mode, "date": str(date), "frame": b, "kepl": list(map(float, kepl)), "ref_kepl": list(map(float, ref.copy(form="keplerian")))},
                              observed=list(map(float, vel)), expected=list(map(float, fd)))
-            # ---- 4. Earth rotation angle / sidereal time / precession against independent formulas; 1980 vs 2010
-            ut1 = date.change_scale("UT1")
-            jd0, sec = ut1.d + 2400000.5, ut1.s
-            pef, tod, tirf, cirf = (get_frame(n).orientation for n in ("PEF", "TOD", "TIRF", "CIRF"))
-            m = pef.convert_to(date, tod)[:3, :3]     # rot3(-GAST)
-            gast = math.atan2(m[1, 0], m[0, 0]) % (2 * math.pi)
-            from beyond.frames import iau1980
-            eq = math.radians(iau1980.equinox(date, eop_correction=False))
-            gmst_i = indep_gmst82(jd0, sec)
-            out.count(key=("gmst", mode, str(date)), kind="sidereal-independent", eop=mode)
-            dg = (gast - eq - gmst_i + math.pi) % (2 * math.pi) - math.pi
-            if abs(dg) > 1e-8:   # 2 mas; jd quantisation alone is 3e-9 rad
-                out.fail("sidereal-independent", "PEF->TOD rotation angle minus equation of equinoxes differs from independently computed GMST82",
-                         {"eop": mode, "date": str(date)}, observed=float(gast - eq), expected=float(gmst_i))
-            m = tirf.convert_to(date, cirf)[:3, :3]
-            era = math.atan2(m[1, 0], m[0, 0]) % (2 * math.pi)
-            de = (era - indep_era(jd0, sec) + math.pi) % (2 * math.pi) - math.pi
-            out.count(key=("era", mode, str(date)), kind="era-independent", eop=mode)
-            if abs(de) > 1e-8:
-                out.fail("era-independent", "TIRF->CIRF rotation angle differs from independently computed Earth rotation angle", {"eop": mode, "date": str(date)},
-                         observed=float(era), expected=float(indep_era(jd0, sec)))
-            tt = date.change_scale("TT")
-            tcen = ((tt.d - 51544) - 0.5 + tt.s / 86400.0) / 36525.0
-            mp = get_frame("MOD").orientation.convert_to(date, get_frame("EME2000").orientation)[:3, :3]
-            out.count(key=("prec", mode, str(date)), kind="precession-independent", eop=mode)
-            if np.abs(mp - indep_precession(tcen)).max() > 1e-11:
-                out.fail("precession-independent", "MOD->EME2000 differs from the IAU-1976 precession matrix written entry by entry", {"eop": mode, "date": str(date)},
-                         observed=mp.tolist(), expected=indep_precession(tcen).tolist())
-            # rate vector: the velocity coupling block equals -[w]x R with w = (0,0,-w_earth(1-lod/86400))
-            m6 = pef.convert_to(date, tod)
-            w = 7.292115146706979e-5 * (1 - date.eop.lod / 1000.0 / 86400.0)
-            expB = np.array([[0, -w, 0], [w, 0, 0], [0, 0, 0]]) @ m6[:3, :3]
-            out.count(key=("rate", mode, str(date)), kind="rate-block", eop=mode)
-            if np.abs(m6[3:, :3] - expB).max() > 1e-15:
-                out.fail("rate-block", "PEF->TOD coupling block is not +w x R (v_inertial = R v + w x R r)", {"eop": mode, "date": str(date)},
-                         observed=m6[3:, :3].tolist(), expected=expB.tolist())
+            # ---- 4. Earth rotation angle / sidereal time / polar motion / nutation / precession / rate against independent formulas
+            #         evaluated with the EOP record of the current configuration (known independently of the library); 1980 vs 2010
+            rec = indep_record(mode, d_ + s_ / 86400.0)
+            if rec is not None:
+                earth_rotation_checks(out, mode, "UTC", d_, s_, date, rec, "matrix")
             if mode in ("real", "zero"):
                 g = get_frame("GCRF").orientation.convert_to(date, get_frame("EME2000").orientation)[:3, :3]
                 ang = rot_angle(g)
@@ -589,21 +898,30 @@ def oracle(ctx, widened):
         if mode == "real":
             eop_reader_oracle(out, rng, 300 if big else 60)
             offset_form_oracle(out, rng, 40 if big else 6)
-        attached_oracle(out, rng, scs, mode, 60 if big else 8)
+        if mode in ("real", "zero", "missing"):
+            attached_oracle(out, rng, scs, mode, 60 if big else 8)
+    history_oracle(out, rng, big)
+    # the same names registered again with another specification, the same instants before and after: "attached to X" follows the new X
     set_eop("real")
+    insts = [rand_ds(rng) for _ in range(3)]
+    attached_oracle(out, rng, scs[:1], "real", 12 if big else 3, instants=insts)
+    _scenarios[0] = Scenario(rng, scs[0].idx, scs[0].tag)
+    sc_class.update({f[0]: f[3] for f in _scenarios[0].frames})
+    attached_oracle(out, rng, _scenarios[:1], "real", 24 if big else 4, instants=insts, kind=":after-re-registration")
     out.sample({"checks": "A->B->C vs A->C, A->B->A, orthonormality/det/block form, |r| preserved, Richardson finite-difference velocity, GMST82/ERA/IAU76 precession vs independent formulas, 1980 vs 2010 chain, EOP file reader vs independent column parse"})
     return out
 
 
-def attached_oracle(out, rng, scs, mode, n):
+def attached_oracle(out, rng, scs, mode, n, instants=None, kind=""):
     """What "a frame attached to X" means, on the real API, with expected values written by hand:
     X itself is the origin of the frame (both ways), and a point X + d is seen at d (same axes) or at R d (QSW/TNW axes of X).
     Covers references given in Earth-centred, orbit-attached (nested), station and Moon-centred frames, default and non-default parents."""
     import numpy as np
+    from beyond.dates import Date
     from beyond.orbits import StateVector
     for _ in range(n):
         sc = rng.choice(scs)
-        date = rand_date(rng)
+        date = rand_date(rng) if instants is None else Date(*rng.choice(instants))
         pvA = np.array(sc.A.propagate(date))
         N = sc.names
         # (attached frame, class, reference state, frame it is given in, axes of the attached frame relative to that frame)
@@ -621,15 +939,15 @@ def attached_oracle(out, rng, scs, mode, n):
                       ("origin-back", lambda: np.array(StateVector(np.zeros(6), date, "cartesian", F).copy(frame=G)), X, True),
                       ("offset", lambda: np.array(StateVector(X + d, date, "cartesian", G).copy(frame=F)), np.concatenate([R @ d[:3], np.zeros(3)]), inert)]
             for name, fn, exp, with_vel in checks:
-                out.count(key=("attached", name, mode, F, str(date)), kind="attached-" + name, cls=cls, eop=mode)
+                out.count(key=("attached", name, mode, F, str(date), kind), kind="attached-" + name, cls=cls, eop=mode)
                 try:
                     got = fn()
                 except Exception as e:
-                    out.fail(f"attached-{name}:{cls}", f"conversion to/from a frame attached to a state given in {G} raised {type(e).__name__}: {e}", inp, observed="exception", expected=list(map(float, exp)))
+                    out.fail(f"attached-{name}:{cls}{kind}", f"conversion to/from a frame attached to a state given in {G} raised {type(e).__name__}: {e}", inp, observed="exception", expected=list(map(float, exp)))
                     continue
                 ok = np.all(np.abs(got[:3] - exp[:3]) <= tp) and (not with_vel or np.all(np.abs(got[3:] - exp[3:]) <= tv))
                 if not ok:
-                    out.fail(f"attached-{name}:{cls}", f"frame attached to a state given in {G}: {name} check fails (the reference is the origin; X + d is seen at d / R d)",
+                    out.fail(f"attached-{name}:{cls}{kind}", f"frame attached to a state given in {G}: {name} check fails (the reference is the origin; X + d is seen at d / R d)",
                              dict(inp, d=list(map(float, d))), observed=list(map(float, got)), expected=list(map(float, exp)))
 
 
@@ -662,24 +980,12 @@ def offset_form_oracle(out, rng, n):
 def eop_reader_oracle(out, rng, n):
     """SimpleEopDatabase on the real IERS files against an independent parse of the same lines (IERS readme columns, 1-based)"""
     from beyond.dates.eop import EopDb
-    folder = os.path.join(core.REPO, "tests", "data", "pole")
-    rows = {}
-    for fn, d1, d2 in (("finals.all", "dpsi", "deps"), ("finals2000A.all", "dx", "dy")):
-        for line in open(os.path.join(folder, fn), encoding="ascii"):
-            mjd = int(float(line[7:15]))
-            def col(a, b):
-                s = line[a - 1:b].strip()
-                return float(s) if s else None
-            r = rows.setdefault(mjd, {})
-            r.update({"x": col(19, 27), "y": col(38, 46), "ut1_utc": col(59, 68), "lod": col(80, 86), d1: col(98, 106), d2: col(117, 125)})
-    leap = [(41317, 10.0), (41499, 11.0), (41683, 12.0), (42048, 13.0), (42413, 14.0), (42778, 15.0), (43144, 16.0), (43509, 17.0), (43874, 18.0), (44239, 19.0),
-            (44786, 20.0), (45151, 21.0), (45516, 22.0), (46247, 23.0), (47161, 24.0), (47892, 25.0), (48257, 26.0), (48804, 27.0), (49169, 28.0), (49534, 29.0),
-            (50083, 30.0), (50630, 31.0), (51179, 32.0), (53736, 33.0), (54832, 34.0), (56109, 35.0), (57204, 36.0), (57754, 37.0)]
+    rows = indep_rows()
     for _ in range(n):
         mjd = rng.randrange(MJD_MIN, MJD_MAX) + rng.random()
         e = EopDb.get(mjd)
         r = rows[int(mjd)]
-        tai = [v for m, v in leap if m <= mjd][-1]
+        tai = indep_leap(mjd)
         out.count(key=("eop", int(mjd)), kind="eop-reader")
         for k in ("x", "y", "ut1_utc", "lod", "dpsi", "deps", "dx", "dy"):
             if r[k] is not None and getattr(e, k) != r[k]:
@@ -723,16 +1029,6 @@ def parse_tab52():
     return out
 
 
-def date_args(date):
-    from beyond.frames import iau1980, iau2010
-    tt, ut1 = date.change_scale("TT"), date.change_scale("UT1")
-    n106 = iau1980._nutation(date, False, 106)
-    n4 = iau1980._nutation(date, False, 4)
-    xys = iau2010._xysxy2(date)
-    e = date.eop
-    return [tt.julian_century, ut1.julian_century, ut1.jd, float(date.d), e.x, e.y, e.dx, e.dy, e.lod, n106[1], n106[2], n4[1], n4[2], xys[0], xys[1], xys[2]]
-
-
 def fl(xs):
     return [f2b(float(x)) for x in xs]
 
@@ -752,6 +1048,113 @@ def cmp_floats(out, family, what, inp, real, reply, rtol=1e-10, atol=0.0):
     return model
 
 
+class Visit:
+    """One (configuration, instant) of a history: the real conversions are made FIRST — the harness reads nothing from the library's
+    internals before them — then what the model is given is collected: the date arguments as a pure function of the TEXT of the
+    date and the independently known EOP record of the current configuration (`pure_times`), the frame specification at the date."""
+
+    def __init__(self, out, rng, sc, mode, scale, d, s, s_utc, date, nconv, nxf, kind, orient_only=None):
+        import numpy as np
+        from beyond.frames import iau1980, iau2010
+        from beyond.frames.frames import get_frame
+        self.mode, self.scale, self.d, self.s, self.s_utc, self.sc, self.kind = mode, scale, d, s, s_utc, sc, kind
+        self.conv, self.xf = [], []
+        self.text = f"Date({d}, {s!r}, scale='{scale}')"
+        tag = dict(eop=mode, history=kind, scale=scale)
+        byori = {}
+        for fr in sc.frames:
+            byori.setdefault(fr[1], fr)
+        if orient_only is not None:
+            byori = {k: v for k, v in byori.items() if k in orient_only}
+        last = None
+        for _ in range(nconv):
+            fa, fb = byori[rng.choice(list(byori))], byori[rng.choice(list(byori))]
+            if last is not None and rng.random() < 0.15:
+                fa, fb = last                                   # the same request again
+            last = (fa, fb)
+            try:
+                m = get_frame(fa[0]).orientation.convert_to(date, get_frame(fb[0]).orientation)
+                shape_err = max(np.abs(m[:3, 3:]).max(), np.abs(m[3:, 3:] - m[:3, :3]).max())
+                res = list(m[:3, :3].flatten()) + list(m[3:, :3].flatten())
+                if shape_err > 1e-13:
+                    out.fail("convert-shape", "6x6 matrix is not of the form [[R,0],[B,R]]", {"eop": mode, "date": self.text, "a": fa[0], "b": fb[0]}, observed=float(shape_err), expected=0.0)
+            except Exception as e:   # connected orientations must be convertible
+                res = f"raised {type(e).__name__}: {e}"
+            self.conv.append((fa, fb, res))
+            a, b = fa[1], fb[1]
+            out.count(key=("conv", mode, self.text, fa[0], fb[0], kind), nontrivial=a != b, kind="orient-convert", pair=f"{min(a, 10)}-{min(b, 10)}" if max(a, b) >= 10 else "builtin", **tag)
+        if nxf:
+            sv0 = make_orbit(rand_kepl(rng), date).copy(form="cartesian")
+        last = None
+        for _ in range(nxf):
+            fa, fb = rng.choice(sc.frames), rng.choice(sc.frames)
+            if last is not None and rng.random() < 0.15:
+                fa, fb = last
+            last = (fa, fb)
+            inp = {"eop": mode, "date": self.text, "from": fa[0], "to": fb[0]}
+            try:
+                sa = sv0.copy(frame=fa[0])
+            except Exception as e:
+                out.fail("model-transform", f"conversion EME2000 -> {fa[3]} raised {type(e).__name__}: {e}", inp, observed="exception", expected="a state")
+                continue
+            try:
+                res = np.array(sa.copy(frame=fb[0]))
+            except Exception as e:
+                res = f"raised {type(e).__name__}: {e}"
+            self.xf.append((fa, fb, np.array(sa), res))
+            out.count(key=("xf", mode, self.text, fa[0], fb[0], kind), nontrivial=fa[0] != fb[0], kind="frame-transform", pair=f"{fa[3] if fa[2] or fa[1] >= 10 else 'builtin'}>{fb[3] if fb[2] or fb[1] >= 10 else 'builtin'}", **tag)
+        # ---- what the model is given
+        rec = indep_record(mode, d + s_utc / 86400.0)
+        self.rec_known = rec is not None
+        if rec is None:                       # outside 1973-2017: the record the library attached (checked against nothing)
+            rec = rec_of(date.eop)
+        else:
+            for k in EOP_FIELDS:
+                if float(getattr(date.eop, k)) != rec[k]:
+                    out.fail(f"eop-of-configuration:{mode}:{k}", f"date.eop.{k} is not the value of the configured EOP source for that day", {"eop": mode, "date": self.text, "record": rec},
+                             observed=float(getattr(date.eop, k)), expected=rec[k])
+        self.rec = rec
+        t = pure_times(scale, d, s, rec)
+        # time-scale arithmetic is C03's subject: the library's own TT / UT1 of this Date object are taken when they are the ones of the
+        # record to the last bit or two of the Julian date (4e-5 s), so that a rounding of the last bit is not reported here
+        lib_tt, lib_ut1 = date.change_scale("TT"), date.change_scale("UT1")
+        if abs(lib_ut1.jd - t["jdut1"]) <= 1e-9 and abs(lib_tt.julian_century - t["ttt"]) <= 1e-13:
+            t["jdut1"], t["tut1"], t["ttt"] = lib_ut1.jd, lib_ut1.julian_century, lib_tt.julian_century
+        else:
+            out.fail(f"timescale-of-record:{mode}:{scale}", "date.change_scale('UT1'/'TT') is not the text of the date plus the offsets of its EOP record", {"eop": mode, "date": self.text, "record": rec},
+                     observed=[lib_ut1.jd, lib_tt.julian_century], expected=[t["jdut1"], t["ttt"]])
+        if float(date.d) != t["day"]:
+            out.fail("date-day", "date.d is not the day of the text", {"date": self.text}, observed=float(date.d), expected=t["day"])
+        self.t = t
+        if orient_only is None:
+            self.ex, self.cl = sc.model_inputs(date)
+            # the memoized / series functions as the library answers them NOW (after the conversions)
+            self.lib_nut = {n: iau1980._nutation(date, False, n) for n in (106, 4)}
+            self.lib_xys = iau2010._xysxy2(date) if kind != "fresh" or rng.random() < 0.3 else None
+
+    def D(self, ser80, ser10):
+        """the 18 date floats of the model: times and record from the text + configuration, series from the MODEL at the TT century"""
+        t, r = self.t, self.rec
+        n106, n4, xys = ser80[106][t["ttt"]], ser80[4][t["ttt"]], ser10[t["ttt"]]
+        return fl([t["ttt"], t["tut1"], t["jdut1"], t["day"], r["x"], r["y"], r["dx"], r["dy"], r["lod"], n106[1], n106[2], n4[1], n4[2], xys[0], xys[1], xys[2], n106[0], n4[0]])
+
+
+def history_plan(rng, scale, n_inst, rounds, modes):
+    """instants shared by the configurations, visited in varying orders, each (configuration, instant) possibly several times"""
+    insts = [(rng.randrange(MJD_MIN, MJD_MAX), round(rng.uniform(200, 86200), rng.choice([0, 3, 6]))) for _ in range(n_inst)]
+    if rng.random() < 0.5:
+        insts[0] = (rng.randrange(50506 - 1800, 50506 + 1800), insts[0][1])
+    plan = []
+    for _ in range(rounds):
+        order = list(modes)
+        rng.shuffle(order)
+        for mode in order:
+            sub = rng.sample(range(n_inst), rng.randint(max(1, n_inst - 1), n_inst))
+            sub.insert(rng.randrange(len(sub) + 1), rng.choice(sub))
+            plan.append((mode, [(i, insts[i][0], insts[i][1] if scale == "UTC" else round(insts[i][1] + indep_leap(insts[i][0]), 6), insts[i][1]) for i in sub]))
+    return plan
+
+
 def correspondence(ctx):
     import numpy as np
     from beyond.dates import Date
@@ -762,44 +1165,35 @@ def correspondence(ctx):
     out = Outcome()
     rng = ctx.rng
     reqs, post = [], []
-    # self-check of the independent table parsers against the library's own readers
+    # self-check of the independent table parsers against the library's own (memoized) readers, asked in varying order, twice
     t51, t52 = parse_tab51(), parse_tab52()
-    lib51 = [[float(v) for v in ints] + list(reals) for ints, reals in iau1980._tab(106)]
-    lib52 = iau2010._tab()
-    if t51 != lib51 or any(rows != [[float(v) for v in r] for r in lib52[tab][j]] for tab, j, rows in t52):
-        out.fail("table-reader", "iau1980._tab / iau2010._tab differ from an independent parse of the data files", {}, observed="differs")
+    asks = [106, 4, None, 106, 4, 30]
+    rng.shuffle(asks)
+    for n in asks:
+        got = [[float(v) for v in ints] + list(reals) for ints, reals in iau1980._tab(n)]
+        if got != (t51[:n] if n else t51):
+            out.fail("table-reader", f"iau1980._tab({n}) differs from an independent parse of tab5.1.txt (asked in the order {asks})", {"max_i": n, "order": asks}, observed=len(got), expected=len(t51[:n] if n else t51))
+        out.count(key=("tab80", n), kind="table-reader")
+    for _ in range(2):
+        lib52 = iau2010._tab()
+        if any(rows != [[float(v) for v in r] for r in lib52[tab][j]] for tab, j, rows in t52):
+            out.fail("table-reader", "iau2010._tab differs from an independent parse of the data files", {}, observed="differs")
     out.count(key="tables", kind="table-reader")
     names = orient_names()
     idx = {n: i for i, n in enumerate(names)}
-    sta = stations()
-    bod = body_frames()
-    # ---- series folds (one batched request each)
-    set_eop("real")
-    sdates = [rand_date(rng) for _ in range(ctx.n(25, 400))]
-    ttts = [d.change_scale("TT").julian_century for d in sdates]
-    for terms in (106, 4):
-        rows = t51[:terms]
-        reqs.append(" ".join(["c02ser80", str(len(ttts))] + fl(ttts) + [str(len(rows))] + [t for r in rows for t in fl(r)]))
-        real = [v for d in sdates for v in iau1980._nutation(d, False, terms)[1:]]
-        post.append(("series80", {"terms": terms, "dates": [str(d) for d in sdates[:3]]}, real, 1e-9, 1e-15))
-        for d in sdates:
-            out.count(key=("ser80", terms, str(d)), kind=f"nutation-series-{terms}")
-    s10 = sdates[:ctx.n(8, 60)]
-    reqs.append(" ".join(["c02ser10", str(len(s10))] + fl(ttts[:len(s10)]) + [str(len(t52))]
-                         + [t for tab, j, rows in t52 for t in [str(tab), str(j), str(len(rows))] + [x for r in rows for x in fl(r)]]))
-    post.append(("series10", {"dates": [str(d) for d in s10[:3]]}, [v for d in s10 for v in iau2010._xysxy2(d)], 1e-10, 1e-10))
-    for d in s10:
-        out.count(key=("ser10", str(d)), kind="cio-series")
+    stations()
+    body_frames()
     # ---- small closed forms
+    set_eop("real")
+    d0 = rand_date(rng)
     for _ in range(ctx.n(40, 2000)):
         kep = rand_kepl(rng)
-        sv = np.array(make_orbit(kep, sdates[0]).copy(form="cartesian"))
+        sv = np.array(make_orbit(kep, d0).copy(form="cartesian"))
         for tnw in (0, 1):
             reqs.append(" ".join(["c02lof", str(tnw)] + fl(sv)))
             post.append(("lof", {"tnw": tnw, "sv": sv.tolist()}, local.to_local("TNW" if tnw else "QSW", sv, expanded=False).T.flatten(), 1e-10, 1e-14))
             out.count(key=reqs[-1], kind="lof-" + ("TNW" if tnw else "QSW"))
         lat, lon, alt = rng.uniform(-1.57, 1.57), rng.uniform(-3.14, 3.14), rng.uniform(-100, 5000)
-        o = orient_mod.TopocentricOrientation.__new__(orient_mod.TopocentricOrientation)
         from beyond.utils.matrix import rot2, rot3
         reqs.append(" ".join(["c02topo"] + fl([lat, lon])))
         post.append(("topo", {"lat": lat, "lon": lon}, (rot3(-lon) @ rot2(lat - np.pi / 2.0) @ rot3(np.pi)).flatten(), 1e-10, 1e-15))
@@ -807,58 +1201,126 @@ def correspondence(ctx):
         reqs.append(" ".join(["c02geod"] + fl([lat, lon, alt])))
         post.append(("geodetic", {"lat": lat, "lon": lon, "alt": alt}, TopocentricFrame._geodetic_to_cartesian(lat, lon, alt), 1e-12, 1e-9))
         out.count(key=reqs[-1], kind="geodetic")
-    # ---- orientation and frame conversions under the three EOP configurations, on the scenarios (spec -> real frames / model inputs)
+    # ---- phase A: the real code is driven through histories of conversions; nothing of the library is reset in between
     scs = scenarios(rng, idx)
-    for mode in ("real", "zero", "missing"):
+    visits = []
+    # A1. fresh instants under each configuration (10 % beyond the tables: the library falls back to zeros there)
+    for mode in MODES:
         set_eop(mode)
-        for _ in range(ctx.n(30, 1200) if mode == "real" else ctx.n(10, 300)):
-            date = rand_date(rng) if rng.random() < 0.9 else rand_date(rng, 57800, 58800)   # beyond the tables: zeros
-            sc = rng.choice(scs)
-            D = fl(date_args(date))
-            ex, cl = sc.model_inputs(date)
-            htoks = [str(len(sc.ohist))] + [str(v) for h in sc.ohist for v in h]
-            etoks = [str(len(ex))] + [t for c, p, m in ex for t in [str(c), str(p)] + fl(np.asarray(m).flatten())]
-            chist = [(3, 0)] + sc.chist
-            ctoks = [str(len(chist))] + [str(v) for h in chist for v in h] + [str(len(cl))] + [t for c, (par, o, off) in cl.items() for t in [str(c), str(par), str(o)] + fl(off)]
-            byori = {}
-            for fr in sc.frames:
-                byori.setdefault(fr[1], fr)
-            for _ in range(4):
-                fa, fb = byori[rng.choice(list(byori))], byori[rng.choice(list(byori))]
-                a, b = fa[1], fb[1]
-                inp = {"eop": mode, "date": str(date), "a": fa[0], "b": fb[0]}
-                reqs.append(" ".join(["c02conv"] + D + htoks + etoks + [str(a), str(b)]))
-                try:
-                    m = get_frame(fa[0]).orientation.convert_to(date, get_frame(fb[0]).orientation)
-                    shape_err = max(np.abs(m[:3, 3:]).max(), np.abs(m[3:, 3:] - m[:3, :3]).max())
-                    post.append(("convert", inp, list(m[:3, :3].flatten()) + list(m[3:, :3].flatten()), 1e-10, 1e-13))
-                    if shape_err > 1e-13:
-                        out.fail("convert-shape", "6x6 matrix is not of the form [[R,0],[B,R]]", inp, observed=float(shape_err), expected=0.0)
-                except Exception as e:   # connected orientations must be convertible
-                    post.append(("convert", inp, f"raised {type(e).__name__}: {e}", 0, 0))
-                out.count(key=("conv", mode, str(date), fa[0], fb[0]), nontrivial=a != b, kind="orient-convert", eop=mode, pair=f"{min(a, 10)}-{min(b, 10)}" if max(a, b) >= 10 else "builtin")
-            kep = rand_kepl(rng)
-            sv0 = make_orbit(kep, date).copy(form="cartesian")
-            for _ in range(6):
-                fa, fb = rng.choice(sc.frames), rng.choice(sc.frames)
-                inp = {"eop": mode, "date": str(date), "from": fa[0], "to": fb[0]}
-                try:
-                    sa = sv0.copy(frame=fa[0])
-                except Exception as e:
-                    out.fail("model-transform", f"conversion EME2000 -> {fa[3]} raised {type(e).__name__}: {e}", inp, observed="exception", expected="a state")
-                    continue
-                inp["state"] = list(map(float, sa))
-                reqs.append(" ".join(["c02xf"] + D + htoks + etoks + ctoks + [str(fa[1]), str(fa[2]), str(fb[1]), str(fb[2])] + fl(np.array(sa))))
-                try:
-                    sb = np.array(sa.copy(frame=fb[0]))
-                    scale_p = max(np.abs(np.array(sa)[:3]).max(), np.abs(sb[:3]).max(), 7e6)
-                    post.append(("transform", inp, sb, 1e-10, ("pv", 1e-9 * scale_p, 1e-9 * scale_p * 1e-3)))
-                except Exception as e:
-                    post.append(("transform", inp, f"raised {type(e).__name__}: {e}", 0, 0))
-                out.count(key=("xf", mode, str(date), fa[0], fb[0]), nontrivial=fa[0] != fb[0], kind="frame-transform", eop=mode, pair=f"{fa[3] if fa[2] or fa[1] >= 10 else 'builtin'}>{fb[3] if fb[2] or fb[1] >= 10 else 'builtin'}")
+        for _ in range(ctx.n(14, 600) if mode == "real" else ctx.n(5, 150) if mode in ("zero", "missing") else ctx.n(3, 80)):
+            d, s = rand_ds(rng) if rng.random() < 0.9 or mode in ("altdb", "patched") else rand_ds(rng, 57800, 58800)
+            visits.append(Visit(out, rng, rng.choice(scs), mode, "UTC", d, s, s, Date(d, s), 4, 6, "fresh"))
+    # A2. the SAME instants under several configurations in one process, varying orders, repeated requests.  Histories in which the key of
+    # the one date-dependent memo of the code (iau1980._nutation: text of the date) determines its value (theorem session_history_independent):
+    # UTC texts under the four configurations that agree on TAI-UTC, TAI texts under all five.  The model is asked call by call,
+    # statelessly: by the theorem the history does not matter.
+    for scale, modes in (("UTC", [m for m in MODES if m != "missing"]), ("TAI", list(MODES))):
+        held = {}
+        for mode, sub in history_plan(rng, scale, ctx.n(3, 12), ctx.n(2, 4), modes):
+            set_eop(mode)
+            for i, d, s, s_utc in sub:
+                date = held[(mode, i)] if (mode, i) in held and rng.random() < 0.3 else Date(d, s, scale=scale)
+                held[(mode, i)] = date
+                visits.append(Visit(out, rng, rng.choice(scs), mode, scale, d, s, s_utc, date, 3, 3, "shared-" + scale))
+    # A3. UTC texts shared by configurations that DISAGREE on TAI-UTC ('missing': 0 s): the TT instant of the text differs, the key of
+    # the _nutation memo does not determine its value, the code is history dependent (theorem session_stale, ~2e-10 rad) — the model
+    # follows it with the memo inside (sessionRun, one c02seq request for the whole history).  Orientation level, built-ins + station.
+    sc = rng.choice(scs)
+    seq = []
+    for mode, sub in history_plan(rng, "UTC", ctx.n(3, 8), ctx.n(2, 4), ["real", "missing", "zero", "patched"]):
+        set_eop(mode)
+        for i, d, s, s_utc in sub:
+            v = Visit(out, rng, sc, mode, "UTC", d, s, s_utc, Date(d, s), 3, 0, "shared-UTC-mixed-TAI-UTC", orient_only=set(range(11)))
+            v.text_id = i
+            seq.append(v)
+    # A4. the same NAMES registered again with another specification (other station coordinates, reference orbits, offsets), then the
+    # same instants under the same configurations as before: a conversion follows what the name means NOW
+    old = scs[0]
+    again = [v for v in visits if v.sc is old and v.kind.startswith("shared")]
+    rng.shuffle(again)
+    _scenarios[0] = Scenario(rng, idx, old.tag)
+    for v in again[:ctx.n(6, 40)]:
+        set_eop(v.mode)
+        visits.append(Visit(out, rng, _scenarios[0], v.mode, v.scale, v.d, v.s, v.s_utc, Date(v.d, v.s, scale=v.scale), 3, 4, "re-registered"))
     set_eop("real")
-    replies = core.Driver(ID).run(reqs)
+    # ---- phase B: the series of the model at every TT century in play (one batched request per table)
+    ttts = sorted({v.t["ttt"] for v in visits + seq})
+    drv = core.Driver(ID)
+    sreq = [" ".join(["c02ser80", str(len(ttts))] + fl(ttts) + [str(n)] + [t for r in t51[:n] for t in fl(r)]) for n in (106, 4)]
+    sreq.append(" ".join(["c02ser10", str(len(ttts))] + fl(ttts) + [str(len(t52))]
+                         + [t for tab, j, rows in t52 for t in [str(tab), str(j), str(len(rows))] + [x for r in rows for x in fl(r)]]))
+    srep = drv.run(sreq)
+    ser80, ser10 = {}, {}
+    for n, rep in zip((106, 4), srep[:2]):
+        vals = [b2f(t) for t in rep.split()] if rep and rep[0].isdigit() else []
+        if len(vals) != 3 * len(ttts):
+            out.fail("model-series80", "model rejected the request: " + rep[:80], {"terms": n}, observed="", expected=rep[:80])
+            return out
+        ser80[n] = {t: vals[3 * k:3 * k + 3] for k, t in enumerate(ttts)}
+    vals = [b2f(t) for t in srep[2].split()] if srep[2] and srep[2][0].isdigit() else []
+    if len(vals) != 3 * len(ttts):
+        out.fail("model-series10", "model rejected the request: " + srep[2][:80], {}, observed="", expected=srep[2][:80])
+        return out
+    ser10 = {t: vals[3 * k:3 * k + 3] for k, t in enumerate(ttts)}
+    for v in visits:
+        inp = {"eop": v.mode, "date": v.text, "history": v.kind}
+        for n in (106, 4):
+            out.count(key=("ser80", n, v.text, v.mode), kind=f"nutation-series-{n}", history=v.kind)
+            for k, (a, b) in enumerate(zip(v.lib_nut[n], ser80[n][v.t["ttt"]])):
+                if not core.close(float(a), b, rtol=1e-9, atol=1e-15):
+                    out.fail("model-series80", f"_nutation(date, False, {n})[{k}] differs between the implementation (as it answers inside this history) and the Lean model at the TT century of the date",
+                             dict(inp, terms=n), observed=[float(x) for x in v.lib_nut[n]], expected=ser80[n][v.t["ttt"]])
+                    break
+        if v.lib_xys is not None:
+            out.count(key=("ser10", v.text, v.mode), kind="cio-series", history=v.kind)
+            for k, (a, b) in enumerate(zip(v.lib_xys, ser10[v.t["ttt"]])):
+                if not core.close(float(a), b, rtol=1e-10, atol=1e-10):
+                    out.fail("model-series10", f"_xysxy2(date)[{k}] differs between the implementation and the Lean model", inp, observed=[float(x) for x in v.lib_xys], expected=ser10[v.t["ttt"]])
+                    break
+    # ---- phase C: every recorded conversion against the model, a pure function of (text of the date, EOP record, frame specification, state)
+    for v in visits:
+        D = v.D(ser80, ser10)
+        sc = v.sc
+        htoks = [str(len(sc.ohist))] + [str(x) for h in sc.ohist for x in h]
+        etoks = [str(len(v.ex))] + [t for c, p, m in v.ex for t in [str(c), str(p)] + fl(np.asarray(m).flatten())]
+        chist = [(3, 0)] + sc.chist
+        ctoks = [str(len(chist))] + [str(x) for h in chist for x in h] + [str(len(v.cl))] + [t for c, (par, o, off) in v.cl.items() for t in [str(c), str(par), str(o)] + fl(off)]
+        for fa, fb, res in v.conv:
+            reqs.append(" ".join(["c02conv"] + D + htoks + etoks + [str(fa[1]), str(fb[1])]))
+            post.append(("convert", {"eop": v.mode, "date": v.text, "history": v.kind, "a": fa[0], "b": fb[0], "record": v.rec}, res, 1e-10, 1e-13))
+        for fa, fb, sa, res in v.xf:
+            reqs.append(" ".join(["c02xf"] + D + htoks + etoks + ctoks + [str(fa[1]), str(fa[2]), str(fb[1]), str(fb[2])] + fl(sa)))
+            inp = {"eop": v.mode, "date": v.text, "history": v.kind, "from": fa[0], "to": fb[0], "state": list(map(float, sa)), "record": v.rec}
+            if isinstance(res, str):
+                post.append(("transform", inp, res, 0, 0))
+            else:
+                scale_p = max(np.abs(sa[:3]).max(), np.abs(res[:3]).max(), 7e6)
+                post.append(("transform", inp, res, 1e-10, ("pv", 1e-9 * scale_p, 1e-9 * scale_p * 1e-3)))
+    # the mixed TAI-UTC history: one request, the memo inside the model
+    sc = seq[0].sc
+    lat, lon = math.radians(sc.latlonalt[0]), math.radians(sc.latlonalt[1])
+    line = ["c02seq", str(len(sc.ohist))] + [str(x) for h in sc.ohist for x in h] + ["1", "10", str(sc.ITRF)] + fl(np_topo(lat, lon).flatten())
+    calls = [(v, fa, fb, res) for v in seq for fa, fb, res in v.conv]
+    line += [str(len(calls))] + [t for v, fa, fb, res in calls for t in [str(v.text_id)] + v.D(ser80, ser10) + [str(fa[1]), str(fb[1])]]
+    reqs.append(" ".join(line))
+    post.append(("sequence", calls, None, 1e-10, 1e-13))
+    replies = drv.run(reqs)
     for req, (kind, inp, real, rtol, atol), rep in zip(reqs, post, replies):
+        if kind == "sequence":
+            toks = rep.split()
+            pos = 0
+            for k, (v, fa, fb, res) in enumerate(inp):
+                one = toks[pos:pos + 1] if toks[pos:pos + 1] == ["E"] else toks[pos:pos + 18]
+                pos += len(one)
+                cinp = {"eop": v.mode, "date": v.text, "history": v.kind, "call_number": k, "a": fa[0], "b": fb[0], "record": v.rec,
+                        "earlier_calls": [f"{w.mode} {w.text} {x[0]}>{y[0]}" for w, x, y, _ in inp[max(0, k - 6):k]]}
+                out.count(key=("seq", k, v.mode, v.text, fa[0], fb[0]), nontrivial=fa[1] != fb[1], kind="orient-convert-in-history", eop=v.mode, history=v.kind)
+                if isinstance(res, str):
+                    if one != ["E"]:
+                        out.fail("model-sequence", "the implementation " + res + " where the model converts", cinp, observed=res, expected="a matrix")
+                    continue
+                cmp_floats(out, "model-sequence", "Orientation.convert_to inside a history of calls (model: sessionRun with the _nutation memo)", cinp, res, " ".join(one), rtol=rtol, atol=atol)
+            continue
         if isinstance(real, str):
             # the implementation raised where the model (the specification of the frame graph) yields a value
             if rep and rep[0].isdigit():
@@ -875,7 +1337,7 @@ def correspondence(ctx):
                 out.fail("model-" + kind, "Frame.transform differs between the implementation and the Lean model", inp, observed=[float(x) for x in real], expected=model)
         else:
             model = cmp_floats(out, "model-" + kind, kind, inp, real, rep, rtol=rtol, atol=atol)
-        out.sample({"request": req[:100] + "…", "impl": [float(x) for x in real][:6], "model": (model or [])[:6]}, limit=1 if kind.startswith("series") else 3)
+        out.sample({"request": req[:100] + "…", "impl": [float(x) for x in real][:6], "model": (model or [])[:6]}, limit=3)
     return out
 
 
